@@ -229,15 +229,15 @@ def parseIfStat : Nat → P (Option Stat)
     let _ ← nextKind .kwThen
     let b0 ← parseBlockLocIf f
     let (cs, bs) ← parseElseifs f [c0] [b0]
-    let (cs, bs) ← (do
+    let (cs, bs, els) ← (do
       if (← lookKind) == .kwElse then
         let _ ← next
         let tl ← nowLocP
         let eb ← parseBlockLocIf f
-        return (cs ++ [Exp.tru tl], bs ++ [eb])
-      else return (cs, bs))
+        return (cs ++ [Exp.tru tl], bs ++ [eb], true)
+      else return (cs, bs, false))
     let _ ← nextKind .kwEnd
-    return some (.if_ cs bs (rangeLoc b (← nowLocP)))
+    return some (.if_ cs bs els (rangeLoc b (← nowLocP)))
 
 def parseElseifs : Nat → List Exp → List Block → P (List Exp × List Block)
   | 0, cs, bs => do let _ ← (outOfFuel : P Unit); return (cs, bs)
